@@ -70,6 +70,7 @@ def confirm(pid: str) -> dict:
 
 def evaluate(pid: str, all_checks: bool) -> dict:
     res = {}
+    SCRATCH = Path(f"/var/tmp/seed-eval-{pid}")
     for k, p in patches(pid):
         dst = SCRATCH / f"{pid}_{k}"
         if dst.exists():
